@@ -56,6 +56,9 @@ type c10Txn struct {
 
 type c10Obs struct {
 	Txn    *c10Txn
+	Id     int
+	Recovered bool
+	RecoverErr string
 	Inject string
 	Ops    []fsOp
 	Full   bool
@@ -222,6 +225,23 @@ func (t *c10Txn) run(tag string, inject string) c10Obs {
 	tr := traceToOps(parseStrace(text), n)
 	o := c10Obs{Txn: t, Inject: inject, Ops: tr.Ops, Snap: snapshotDir(n), Res: res, Trace: tr}
 	o.Full = !strings.Contains(text, "killed by SIGKILL")
+	// "after deleting the leftover hidden control files the table is usable again"
+	if ents, err := os.ReadDir(dir); err == nil {
+		for _, e := range ents {
+			if strings.HasPrefix(e.Name(), ".") {
+				_ = os.Remove(filepath.Join(dir, e.Name()))
+			}
+		}
+	}
+	var sel []string
+	for i := 1; i <= 4; i++ {
+		sel = append(sel, fmt.Sprintf("SELECT COUNT(*) FROM t%d;", i))
+	}
+	rr := runCmdNoStdin(home, []string{csvqBinary(), "-r", dir, strings.Join(sel, " ")}, 20*time.Second, "HOME="+home)
+	o.Recovered = rr.Code == 0 && !rr.TimedOut
+	if !o.Recovered {
+		o.RecoverErr = fmt.Sprintf("exit %d: %s", rr.Code, rr.Stderr)
+	}
 	_ = os.RemoveAll(dir)
 	_ = os.Remove(filepath.Join(t.RootDir, tag+".strace"))
 	return o
@@ -298,22 +318,26 @@ func (t *c10Txn) coqCase(id int, o c10Obs) string {
 	for i, a := range t.Acq {
 		acq[i] = fmt.Sprintf("(%s, %d%%N)", coqBool(a.Create), a.Tbl)
 	}
-	return fmt.Sprintf("mkC %d%%N %d%%N %s %s\n  %s\n  [%s] %s %s %s %s %s %s\n  %s\n  %s\n  %s",
+	return fmt.Sprintf("mkC %d%%N %d%%N %s %s\n  %s\n  [%s] %s %s %s %s %s %s\n  %s\n  %s\n  %s %s",
 		id, id+1, coqBool(t.RenameOv), coqBytes(t.LB), t.initSnap().coq(), strings.Join(acq, "; "),
 		tch(cr), tch(up), coqNs(idle), coqNs(t.ExpCr), coqNs(t.ExpUp), coqNs(t.ExpIdle),
-		coqOps(o.Ops), coqBool(o.Full), o.Snap.coq())
+		coqOps(o.Ops), coqBool(o.Full), o.Snap.coq(), coqBool(o.Recovered))
 }
+
+// c10CaseId: stable across runs (the set of runs that get killed at a new place varies with thread
+// scheduling, the identity of a run does not); even = main id, odd = id of the window finding
+func c10CaseId(txn, class, n, round int) int { return (((txn*8+class)*500+n)*8 + round) * 2 }
 
 func runC10(seed int64, tier string, out string) {
 	r := rand.New(rand.NewSource(seed))
 	meta := newMeta("C10", seed)
-	meta.Rule = "transactions generated from one seeded PRNG: 1-3 of the tables t1..t3 updated by 1-2 UPDATE/INSERT/DELETE statements each, 0-2 tables created (CREATE TABLE + 0-2 INSERT), 0-1 table locked by a statement that changes nothing, t4 untouched, statements interleaved at random, implicit or explicit COMMIT, line break LF/CRLF/stripped. Each transaction is run by build/csvq under strace -f once undisturbed and once per (system call class in openat/ftruncate/write/close/unlinkat/renameat, N) with SIGKILL injected before the N-th such call on a repository path. A case = one run; it is non-trivial when at least one mutating call completed; distinct = distinct (transaction, number of completed calls, killed or not) triples."
+	meta.Rule = "transactions generated from one seeded PRNG: 1-3 of the tables t1..t3 updated by 1-2 UPDATE/INSERT/DELETE statements each, 0-2 tables created (CREATE TABLE + 0-2 INSERT), 0-1 table locked by a statement that changes nothing, t4 untouched, statements interleaved at random, implicit or explicit COMMIT, line break LF/CRLF/stripped. Each transaction is run by build/csvq under strace -f once undisturbed and once per (system call class in openat/ftruncate/write/close/unlinkat/renameat, N) with SIGKILL injected before the N-th such call on a repository path. After every run the hidden files are deleted and csvq must be able to SELECT from t1..t4 (recoverable). A case = one run; it is non-trivial when at least one mutating call completed; distinct = distinct (transaction, number of completed calls, killed or not) triples."
 	w := &shardWriter{dir: out, prop: "C10", max: 120, meta: meta,
 		header: "From Coq Require Import NArith List.\nRequire Import Csvq.Model.Base Csvq.Model.Fs Csvq.Model.Commit Csvq.Harness.H10.\nOpen Scope list_scope.\n",
 		footer: func(ls []string) string {
 			return "Definition M := Eval vm_compute in (check_c10 cases).\nPrint M.\n"
 		}}
-	nTxn, rounds := 40, 2
+	nTxn, rounds := 30, 2
 	if tier == "thorough" {
 		nTxn, rounds = 400, 6
 	}
@@ -334,6 +358,7 @@ func runC10(seed int64, tier string, out string) {
 		t      *c10Txn
 		inject string
 		tag    string
+		id     int
 	}
 	var mu sync.Mutex
 	var obs []c10Obs
@@ -363,6 +388,7 @@ func runC10(seed int64, tier string, out string) {
 		}
 		t.RefOps = o.Ops
 		t.Counts = o.Trace.Counts
+		o.Id = c10CaseId(t.Id, 0, 0, 0)
 		obs = append(obs, o)
 	}
 	// crash runs; in the thorough tier repeated until every prefix length has been seen
@@ -386,14 +412,15 @@ func runC10(seed int64, tier string, out string) {
 			if round > 0 && !missing {
 				continue
 			}
-			for _, c := range classes {
-				for n := 1; n <= t.Counts[c]; n++ {
-					jobs = append(jobs, job{t, fmt.Sprintf("%s:signal=SIGKILL:when=%d", c, n), fmt.Sprintf("r%d_%s_%d", round, c, n)})
+			for ci, c := range classes {
+				for n := 1; n <= t.Counts[c] && n < 500; n++ {
+					jobs = append(jobs, job{t, fmt.Sprintf("%s:signal=SIGKILL:when=%d", c, n), fmt.Sprintf("r%d_%s_%d", round, c, n), c10CaseId(t.Id, ci+1, n, round)})
 				}
 			}
 		}
 		parallelDo(len(jobs), 16, func(j int) {
 			o := jobs[j].t.run(jobs[j].tag, jobs[j].inject)
+			o.Id = jobs[j].id
 			mu.Lock()
 			defer mu.Unlock()
 			if round > 0 && covered[o.Txn.Id][len(o.Ops)] && !o.Full {
@@ -416,9 +443,9 @@ func runC10(seed int64, tier string, out string) {
 	})
 
 	distinct := map[string]bool{}
-	id := 0
 	for _, o := range obs {
 		t := o.Txn
+		id := o.Id
 		if len(o.Trace.Strange) > 0 || len(o.Trace.OtherMut) > 0 || len(o.Snap.Unknown) > 0 {
 			meta.Direct = append(meta.Direct, DirectViolation{Key: "trace-not-understood",
 				What: fmt.Sprintf("a run issued calls on the repository outside the model's vocabulary: %v %v; unknown files %v", o.Trace.Strange, o.Trace.OtherMut, o.Snap.Unknown),
@@ -436,7 +463,7 @@ func runC10(seed int64, tier string, out string) {
 		}
 		c := map[string]interface{}{"transaction": t.Id, "shape": t.Shape, "program": t.Program, "args": t.Args,
 			"inject": o.Inject, "killed": !o.Full, "completed_calls": len(o.Ops), "last_completed": showOps(last),
-			"directory_found": o.Snap.show(), "exit": o.Res.Code}
+			"directory_found": o.Snap.show(), "exit": o.Res.Code, "readable_after_deleting_hidden_files": o.Recovered, "recover_error": o.RecoverErr}
 		meta.Cases[fmt.Sprint(id)] = c
 		// the id under which Coq reports "missing, but complete in the temp file" (kind 6 only)
 		missing := false
@@ -455,7 +482,6 @@ func runC10(seed int64, tier string, out string) {
 			meta.Cases[fmt.Sprint(id+1)] = cw
 			meta.Distribution["table missing after kill (remove->rename window)"]++
 		}
-		id += 2
 		meta.Evaluations++
 		meta.Distribution[t.Shape[:strings.Index(t.Shape, " end=")]]++
 		if o.Full {
